@@ -493,6 +493,20 @@ impl Property for C03 {
                 if !keep_known {
                     for d in prog.decls.iter_mut() {
                         if let Decl::Comp(c) = d {
+                            // known findings about the layout of the whole struct (recorded for C01/C02):
+                            // `packed` together with `aligned(N)`, and `packed` inside `#pragma pack`
+                            if c.packed && c.aligned.is_some() {
+                                c.aligned = None;
+                                out.excluded_known += 1;
+                            }
+                            if c.packed && c.pragma_pack.is_some() {
+                                c.pragma_pack = None;
+                                out.excluded_known += 1;
+                            }
+                            if c.pragma_pack.is_some() && c.aligned.is_some() {
+                                c.aligned = None;
+                                out.excluded_known += 1;
+                            }
                             if (c.packed || c.pragma_pack.is_some()) && c.fields.iter().any(|f| f.bits.map(|b| b >= 57).unwrap_or(false)) {
                                 // a 57..64-bit field at an unaligned bit offset spans 9 bytes
                                 c.packed = false;
